@@ -8,7 +8,7 @@ import impl
 
 TABLES = []
 LAKE_TARGETS = ["Moclo.Props.C09"]
-THEOREMS = []
+THEOREMS = ["Moclo.C09." + t for t in ["product_header", "target_has_source", "sources_tile", "offsets_spec", "shifted_source", "fragment_verbatim", "reref_keeps_sources", "product_is_layout"]]
 RULE = ("well-formed assemblies over every enzyme geometry (with annotated inputs and unused modules), random "
         "GenBank-legal ids and names; two-level compositions (a product re-used as a module of the next assembly "
         "through a kit whose vectors embed the next level's sites is covered by C11; here a product is re-wrapped and "
